@@ -49,7 +49,7 @@ class Chains:
         rnd = self.rnd
         U = rnd.choice(BIG_UNIVERSES if big else UNIVERSES)
         ndim = rnd.choice([1, 1, 2, 2, 2])
-        rows = rnd.choice([0, 1, 2, 3, 4, 5, 7])
+        rows = rnd.choice([0, 1, 2, 3, 4, 5, 7, 9, 13])
         cols = rnd.choice([1, 2, 3])
         shape = (rows,) if ndim == 1 else (rows, cols)
         pool = [self.rand_index(U, shape) for _ in range(2)]
@@ -107,9 +107,20 @@ class Chains:
         self.rec.update(idx, cells, as_lists=rnd.random() < 0.3)
 
     def op_filtered(self, idx, U):
+        rnd = self.rnd
         n = idx.shape[0]
-        p = self.rnd.choice([0.0, 0.3, 0.6, 1.0])
-        return self.rec.filtered(idx, [self.rnd.random() < p for _ in range(n)])
+        if n and rnd.random() < 0.5:
+            # value-correlated mask: drop (most of) the rows holding one value, and a few others, so that the
+            # most frequent value of the result differs from the receiver's
+            D = dense_of(idx)
+            col = D if D.ndim == 1 else D[:, rnd.randrange(D.shape[1])] if D.shape[1] else D[:, :0].sum(axis=1)
+            vals = sorted(set(col.tolist()))
+            v = rnd.choice(vals) if vals else None
+            keep_v, keep_o = rnd.choice([0.0, 0.1, 0.3]), rnd.choice([1.0, 0.8, 0.6])
+            mask = [(rnd.random() < keep_v) if col[r] == v else (rnd.random() < keep_o) for r in range(n)]
+            return self.rec.filtered(idx, mask)
+        p = rnd.choice([0.0, 0.3, 0.6, 1.0])
+        return self.rec.filtered(idx, [rnd.random() < p for _ in range(n)])
 
     def op_copy(self, idx, U):
         return self.rec.copy(idx)
